@@ -521,6 +521,10 @@ class ODVariable:
             mask |= 1 << bit
         temp &= ~mask
         temp |= bit_value << min(bits)
+        if self.data_type in SIGNED_TYPES:
+            # A change of the sign bit must stay within the two's complement range
+            sign = 1 << (len(self) - 1)
+            temp = (temp & (sign - 1)) - (temp & sign)
         return temp
 
 
